@@ -1,5 +1,8 @@
 #include "chibicc.h"
 
+// True while the controlling expression of #if or #elif is parsed.
+bool in_pp_const_expr;
+
 Type *ty_void = &(Type){TY_VOID, 1, 1};
 Type *ty_bool = &(Type){TY_BOOL, 1, 1};
 
@@ -223,7 +226,7 @@ void add_type(Node *node) {
   case ND_LT:
   case ND_LE:
     usual_arith_conv(&node->lhs, &node->rhs);
-    node->ty = ty_int;
+    node->ty = in_pp_const_expr ? ty_long : ty_int;
     return;
   case ND_FUNCALL:
     node->ty = node->func_ty->return_ty;
@@ -231,7 +234,10 @@ void add_type(Node *node) {
   case ND_NOT:
   case ND_LOGOR:
   case ND_LOGAND:
-    node->ty = ty_int;
+    // [https://www.sigbus.info/n1570#6.10.1p4] In #if, every signed
+    // integer type acts as intmax_t, including the type of 0 and 1
+    // that these operators yield.
+    node->ty = in_pp_const_expr ? ty_long : ty_int;
     return;
   case ND_BITNOT:
   case ND_SHL:
